@@ -334,6 +334,32 @@ def every_response_is_looked_up(facts, R, rule):
     R.floor(rule, n, 2, "response loops with a decoded response in hand")
 
 
+_ORDER_KEEPING = {"buffered", "join_all", "try_join_all"}
+_ORDER_BREAKING = {"buffer_unordered", "for_each_concurrent", "select_all", "rev", "skip", "step_by", "zip", "filter", "skip_while", "take_while", "filter_map",
+                   "flat_map", "chain", "cycle", "sort", "sort_by", "sort_by_key", "sort_unstable", "dedup", "swap", "reverse"}
+
+
+def _order_preserving_pipeline(facts, e):
+    """`stream::iter(requests).map(call).buffered(n).collect()` / `join_all(requests.into_iter().map(call))`: the i-th result
+    is the result of the i-th request by the documented semantics of `buffered` / `join_all`.  Accepted when nothing in the
+    pipeline reorders or drops items, the source is the requests parameter, and the mapping closure captures nothing a request
+    could come from except its own item (self and a timeout only) and makes one call."""
+    names = {x[1].rsplit("::", 1)[-1] for x in walk(e) if x[0] == "call"}
+    if not (names & _ORDER_KEEPING) or names & _ORDER_BREAKING or any("Unordered" in x[1] for x in walk(e) if x[0] == "call"):
+        return False
+    src = [x for x in walk(e) if x[0] == "call" and x[1].rsplit("::", 1)[-1] in ("iter", "into_iter") and x[2] and render(x[2][0]).endswith("requests")]
+    clos = [x for x in walk(e) if x[0] == "agg" and str(x[1]).startswith("closure:")]
+    if len(src) != 1 or len(clos) != 1:
+        return False
+    caps = {k for k, _ in clos[0][3]}
+    if not caps <= {"self", "timeout", "timeout_duration", "client", "this"}:
+        return False
+    cpath = clos[0][1].split(":", 1)[1]
+    bodies = [facts.bodies[p_] for p_ in facts.bodies if p_ == cpath or p_.startswith(cpath + "::{")]
+    calls = [t for b_ in bodies for _, t in b_.calls() if t["callee"]["name"].startswith("call_") and t["callee"]["path"].split("::")[0] in ("client", "async_client", "websocket_client")]
+    return len(calls) == 1
+
+
 def _in_inner_cycle(b, send_bb, read_bb):
     """can the send run again without passing the map removal (i.e. without a new response)?"""
     return send_bb in b.reachable(b.succs(send_bb), avoid=[read_bb])
@@ -623,10 +649,18 @@ def batch_async(facts, R, path):
     while outv[0] == "call" and len(outv[2]) == 1 and outv[1].rsplit("::", 1)[-1] in ("deref", "deref_mut", "as_mut", "borrow_mut", "as_mut_slice"):
         outv = outv[2][0]
     r_out = render(outv)
-    rows_ = value_rows(b, s, facts, 0, fmt=render)
+    exprs_ = {}
+
+    def _fmt(z):
+        exprs_[render(z)] = z
+        return render(z)
+    rows_ = value_rows(b, s, facts, 0, fmt=_fmt)
     for g_, v_ in rows_:
         vv = v_ if isinstance(v_, str) else render(v_)
         empty = vv.startswith(("Vec::new(", "vec::Vec::new(")) or vv == "Vec::new()"
+        if not (r_out in vv or empty) and vv in exprs_ and _order_preserving_pipeline(facts, exprs_[vv]):
+            R.ok("index-travels", path, "the batch returns the vector filled by index", b.span, "order-preserving pipeline over the requests: " + vv[:120])
+            continue
         R.check(r_out in vv or empty, "index-travels", path, "the batch returns the vector filled by index",
                 "a batch result is produced as %s, which is not the vector whose slots are stored by request index: results come back in whatever "
                 "order that route yields them" % vv[:200], b.span, "out")
